@@ -277,6 +277,29 @@ macro_rules! variant {
                 fn finalize_default(&self) -> Result<H, GErr> {
                     self.0.finalize().map(bx).map_err(gerr)
                 }
+                fn finalize_setters(&self, seq: &[(u8, bool)]) -> Result<H, GErr> {
+                    let mut o = GeneratorOptions::new();
+                    for &(w, val) in seq {
+                        match w % 5 {
+                            0 => {
+                                o.length_processing_mode(if val { DataLengthProcessingMode::Conservative } else { DataLengthProcessingMode::Optimistic });
+                            }
+                            1 => {
+                                o.pure_integer_qratio_computation(val);
+                            }
+                            2 => {
+                                o.allow_small_size_files(val);
+                            }
+                            3 => {
+                                o.allow_statistically_weak_buckets_half(val);
+                            }
+                            _ => {
+                                o.allow_statistically_weak_buckets_quarter(val);
+                            }
+                        }
+                    }
+                    self.0.finalize_with_options(&o).map(bx).map_err(gerr)
+                }
                 fn processed_len(&self) -> Option<u32> {
                     self.0.processed_len()
                 }
